@@ -116,7 +116,7 @@ fn greased(out: &mut Out, rng: &mut Rng, p: u8, batch_size: u8, want_replies: us
 
 pub fn run(ctx: &Ctx, out: &mut Out, rng: &mut Rng) {
     // (a) every configured batch_size once (quick) / several times (thorough), fault 0
-    let reps = if ctx.thorough { 12 } else { 1 };
+    let reps = if ctx.thorough { 24 } else { 8 };
     let mut k = 0u64;
     'o: for rep in 0..reps {
         for bs in 1..=64u8 {
@@ -124,7 +124,7 @@ pub fn run(ctx: &Ctx, out: &mut Out, rng: &mut Rng) {
             if k % ctx.nshards != ctx.shard {
                 continue;
             }
-            let nrounds = if ctx.thorough && rep % 4 == 0 { 200 } else if ctx.thorough { 30 } else { 6 };
+            let nrounds = if ctx.thorough && rep % 4 == 0 { 200 } else if ctx.thorough { 30 } else { 16 };
             clean_history(out, rng, bs, nrounds, k);
             if !ctx.time_left() {
                 out.note("clean loop cut by wall budget");
